@@ -361,3 +361,6 @@ mod tests {
         assert_eq!(bytes, Bytes::from(&b"a JSON string from integer array"[..]));
     }
 }
+
+#[cfg(kani)]
+pub(crate) mod verif_kani;
